@@ -187,7 +187,32 @@ where
     u.raw("""
 // A-tonic-conn-01: Connection::new (hyper client settings and the tower stack around Reconnect; not under contract) builds the
 // channel service with the given laziness; ServiceExt::ready_oneshot drives it to readiness and hands the same service back
-pub struct Endpoint { pub id: Ghost<int>, pub buffer_size: Option<usize>, pub executor: SharedExec }
+pub struct Endpoint { pub id: Ghost<int>, pub buffer_size: Option<usize>, pub executor: SharedExec, pub uri: EndpointType, pub connect_timeout: Option<Duration> }
+pub enum EndpointType { Uri(Uri), Uds(String) }
+pub struct Uri { pub id: Ghost<int> }
+pub struct Duration { pub secs: u64, pub sub: u32 }
+// A-derive-07: #[derive(Clone)] on Endpoint (dropped with the attributes): the same endpoint
+impl Clone for Endpoint { #[verifier::external_body] fn clone(&self) -> (r: Self) ensures r == *self { unimplemented!() } }
+// the connectors an endpoint builds (Endpoint::connector / http_connector / uds_connector: under contract in unit serverconfig as
+// far as TLS goes, A-tonic-link-31; here opaque values) and hyper_timeout's wrapper around one
+pub struct UserConnector<C> { pub c: C }
+pub struct HttpConn { pub id: Ghost<int> }
+pub struct UdsConn { pub id: Ghost<int> }
+impl Endpoint {
+    #[verifier::external_body] pub fn connector<C>(&self, c: C) -> (r: UserConnector<C>) { unimplemented!() }
+    #[verifier::external_body] pub fn http_connector(&self) -> (r: UserConnector<HttpConn>) { unimplemented!() }
+    #[verifier::external_body] pub fn uds_connector(&self, p: &str) -> (r: UserConnector<UdsConn>) { unimplemented!() }
+}
+pub mod hyper_timeout {
+    use super::*;
+    pub struct TimeoutConnector<C> { pub c: C }
+    impl<C> TimeoutConnector<C> {
+        #[verifier::external_body] pub fn new(c: C) -> (r: Self) { unimplemented!() }
+        #[verifier::external_body] pub fn set_connect_timeout(&mut self, d: Option<Duration>) { unimplemented!() }
+    }
+}
+impl Copy for Duration {}
+impl Clone for Duration { fn clone(&self) -> Self { *self } }
 pub struct Connection { pub lazy: Ghost<bool>, pub endpoint: Ghost<Endpoint> }
 // A-tower-20: tower::buffer::Buffer::pair turns a service into a cloneable handle on it plus the worker future that drives it;
 // SharedExec::execute spawns a future (an opaque call: that the worker runs is not stated)
@@ -230,6 +255,18 @@ impl Connection {
          body_edits=chg + [lambda t: t.sub_code('R3', r'\.map_err\(Error::from_source\)', '.map_err(|e| Error::from_source(e))')],
          closures={0: dict(params='e: BoxError', ret='(x: Error)', ensures=['x.source == e'])},
          ensures=[Clause('H2_a_connected_channel_is_eager_so_its_first_failure_was_reported_by_connect_itself', 'r matches Ok(ch) ==> !ch.svc.wraps@.lazy@ && ch.svc.wraps@.endpoint@ == endpoint')])
+    u.close('}')
+    # ---- Endpoint::connect*: the four public ways to a Channel pick eager / lazy (endpoint.rs) ----
+    EP = 'tonic/src/transport/channel/endpoint.rs'
+    u._emit('impl Endpoint {'); u._open_header = 'impl Endpoint {'
+    eg = gen + [lambda t: t.sub_code('R12', r'Result<Channel, Error>', 'Result<Channel, Error>')]
+    sb = [lambda t: t.sub_code('R17', r'uds_filepath\.as_str\(\)', 'uds_filepath.as_str()')]
+    for name in ('connect', 'connect_with_connector'):
+        u.fn(EP, name, within='impl Endpoint', sig_edits=eg, display='Endpoint::' + name,
+             ensures=[Clause('H3_an_eager_connect_yields_only_a_channel_whose_connection_was_driven_to_readiness', 'r matches Ok(ch) ==> !ch.svc.wraps@.lazy@ && ch.svc.wraps@.endpoint@ == *self')])
+    for name in ('connect_lazy', 'connect_with_connector_lazy'):
+        u.fn(EP, name, within='impl Endpoint', sig_edits=eg, display='Endpoint::' + name,
+             ensures=[Clause('H4_a_lazy_connect_yields_a_lazy_channel', 'r.svc.wraps@.lazy@ && r.svc.wraps@.endpoint@ == *self')])
     u.close('}')
     u._emit('} // mod connection')
     return u
